@@ -262,6 +262,57 @@ pub fn drive(log: &mut Log) {
             }
         }
     }
+    // (c) alignment sweep: a pattern with one rare symbol x at position i (i = 0 and i random), texts
+    // = filler^s + p + tail for every offset s (filler free of x). The first search window ends on
+    // pattern position m-1-s, so every pattern position is once the last symbol of a window that lies
+    // inside a real occurrence (the shift taken there must not jump over the occurrence), for the
+    // word-size lengths of the bit-parallel matchers and for pattern lengths around 256 / 512 (longer
+    // than any table indexed by a byte) for the others.
+    let lens_c_bp: [usize; 5] = [31, 33, 62, 63, 64];
+    let lens_c_any: [usize; 9] = [64, 65, 130, 255, 256, 257, 258, 300, 520];
+    let nrep = log.opts.n(1, 4);
+    for algo in ALGOS.iter() {
+        let bp = *algo == "shiftand" || *algo == "bndm";
+        let lens: &[usize] = if bp { &lens_c_bp } else { &lens_c_any };
+        for &m in lens {
+            for rep in 0..(2 * nrep) {
+                case += 1;
+                if !log.mine(case) {
+                    continue;
+                }
+                let mut rng = Rng::new(seed, 8, case);
+                let alpha: Vec<u8> = if rep % 4 < 2 { b"ACT".to_vec() } else { (1..=200u8).collect() };
+                let x = if rep % 4 < 2 { b'G' } else { 0u8 };
+                let i = if rep % 2 == 0 { 0 } else { rng.below(m as u64) as usize };
+                let mut p = rng.seq(m, &alpha);
+                p[i] = x;
+                let full = m <= 300;
+                let mut offs: Vec<usize> = if full { (0..=m).collect() } else { vec![0, m - 1, m - 1 - i, m] };
+                if !full {
+                    for _ in 0..24 {
+                        offs.push(rng.below(m as u64 + 1) as usize);
+                    }
+                }
+                let texts: Vec<Vec<u8>> = offs
+                    .iter()
+                    .map(|&s| {
+                        let mut t = rng.seq(s, &alpha);
+                        t.extend_from_slice(&p);
+                        let tail = rng.below(4) as usize;
+                        t.extend(rng.seq(tail, &alpha));
+                        t
+                    })
+                    .collect();
+                if m == 64 && bp {
+                    log.oblige("alignment_sweep_len64");
+                }
+                if m > 256 {
+                    log.oblige("alignment_sweep_pattern_longer_than_256");
+                }
+                run_one(log, "al", algo, &p, &texts);
+            }
+        }
+    }
 }
 
 fn main() {
